@@ -695,3 +695,72 @@ Proof.
   rewrite (join_dtypes_perm _ _ (Permutation_map f_dtype Hp)).
   rewrite (list_max_perm _ _ (Permutation_map f_bits Hp)). reflexivity.
 Qed.
+
+(* ------------------------------------------------------------------------------------------ *)
+(** * Every query after a history, and the trace the correspondence check compares *)
+
+(** the k-th item of [trace] is [step] applied to the state after the first k calls: what [Corr.check] compares
+    with the implementation, operation by operation, is the model after the same calls *)
+Lemma trace_spec h st k d :
+  k < length h ->
+  nth k (trace st h) d =
+  let '(s, x) := step (run st (firstn k h)) (nth k h OGetShape) in (x, (ids (files_info s), shape_dirty s)).
+Proof.
+  revert st k. induction h as [|o h IH]; intros st k Hk; [simpl in Hk; lia|].
+  destruct k as [|k].
+  - simpl. destruct (step st o) as [s x]. reflexivity.
+  - cbn [trace firstn run nth]. destruct (step st o) as [s x] eqn:E. cbn [nth].
+    rewrite IH by (simpl in Hk; lia). change s with (fst (s, x)). rewrite <- E. reflexivity.
+Qed.
+
+Lemma get_shape_det st1 st2 :
+  inv st1 -> inv st2 -> cfg_time st1 = cfg_time st2 -> cfg_vec st1 = cfg_vec st2 ->
+  Permutation (files st1) (files st2) ->
+  snd (get_shape st1) = snd (get_shape st2) /\
+  (forall sh, snd (get_shape st1) = Ok sh ->
+     files_info (fst (get_shape st1)) = files_info (fst (get_shape st2))).
+Proof.
+  intros Hi1 Hi2 Hct Hcv Hp.
+  assert (Hsame : same_stack st1 st2).
+  { apply same_stack_of_files; try assumption; [apply Hi1 | apply Hi2]. }
+  destruct (compute_shape_det st1 st2 (proj1 (proj1 Hi1)) (proj1 (proj1 Hi2)) Hsame) as [Hr Hf].
+  destruct (get_shape_canon st1 Hi1) as [Hr1 Hf1]. destruct (get_shape_canon st2 Hi2) as [Hr2 Hf2].
+  split; [congruence|]. intros sh Hok.
+  rewrite (Hf1 sh Hok). rewrite (Hf2 sh) by congruence. apply (Hf sh). congruence.
+Qed.
+
+(** shape, data (file order, shape, dtype) and affine (source file, slice column) after any two histories that
+    accepted the same files *)
+Theorem query_det st1 st2 o :
+  inv st1 -> inv st2 -> cfg_time st1 = cfg_time st2 -> cfg_vec st1 = cfg_vec st2 ->
+  Permutation (files st1) (files st2) ->
+  match o with OAdd _ => True | _ => snd (step st1 o) = snd (step st2 o) end.
+Proof.
+  intros Hi1 Hi2 Hct Hcv Hp.
+  destruct (get_shape_det st1 st2 Hi1 Hi2 Hct Hcv Hp) as [Hr Hf].
+  destruct o; try exact I; cbn [step].
+  - destruct (get_shape st1) as [s1 r1], (get_shape st2) as [s2 r2]. simpl in *. subst r2. reflexivity.
+  - unfold get_data. destruct (get_shape st1) as [s1 r1], (get_shape st2) as [s2 r2]. simpl in *. subst r2.
+    destruct r1 as [sh|e]; simpl; [|reflexivity]. unfold data_dtype. rewrite (Hf sh eq_refl). reflexivity.
+  - unfold get_affine. destruct (get_shape st1) as [s1 r1], (get_shape st2) as [s2 r2]. simpl in *. subst r2.
+    destruct r1 as [sh|e]; simpl; [|reflexivity]. rewrite (Hf sh eq_refl). reflexivity.
+  - pose proof (to_nifti_det st1 st2 vo embed Hi1 Hi2 Hct Hcv Hp) as H.
+    destruct (to_nifti st1 vo embed), (to_nifti st2 vo embed). simpl in *. subst. reflexivity.
+  - unfold to_nifti_wrapper. pose proof (to_nifti_det st1 st2 vo true Hi1 Hi2 Hct Hcv Hp) as H.
+    destruct (to_nifti st1 vo true), (to_nifti st2 vo true). simpl in *. subst. reflexivity.
+Qed.
+
+Theorem C12_queries_lemma ct cv h1 h2 o :
+  Permutation (accepted (init ct cv) h1) (accepted (init ct cv) h2) ->
+  match o with
+  | OAdd _ => True
+  | _ => snd (step (run (init ct cv) h1) o) = snd (step (run (init ct cv) h2) o)
+  end.
+Proof.
+  intros Hp. apply query_det.
+  - apply inv_run, inv_init.
+  - apply inv_run, inv_init.
+  - destruct (run_cfg h1 (init ct cv)) as [A _]. destruct (run_cfg h2 (init ct cv)) as [B _]. congruence.
+  - destruct (run_cfg h1 (init ct cv)) as [_ A]. destruct (run_cfg h2 (init ct cv)) as [_ B]. congruence.
+  - rewrite (run_files h1 _ (wf_init ct cv)), (run_files h2 _ (wf_init ct cv)). simpl. exact Hp.
+Qed.
